@@ -57,7 +57,9 @@ REQUIRED_TRIEG = ["KV.C03TrieG.ofTableG_represents", "KV.C03TrieG.quant_trie_ref
                   "KV.C03TrieG.trie_build_represents_array", "KV.C03TrieG.trie_end_to_end_array", "KV.C03TrieG.train_qok",
                   "KV.C03TrieG.train_exact", "KV.C03TrieG.quant_exact_agree", "KV.C03TrieG.trie_end_to_end_quant_exact",
                   "KV.C03TrieG.k_shape_array", "KV.C03TrieG.k_shape_quant", "KV.C03TrieG.k_shape_quant_array",
-                  "KV.C03TrieG.example_end_to_end_array"]
+                  "KV.C03TrieG.example_end_to_end_array", "KV.C03TrieG.shape_g", "KV.C03TrieG.k_small", "KV.C03TrieG.struct_eq_built",
+                  "KV.C03TrieG.train_markOK", "KV.C03TrieG.quant_structural_built", "KV.C03TrieG.quant_structural_end_to_end",
+                  "KV.C03TrieG.k_table_ok", "KV.C03TrieG.example_quant_structural"]
 
 TYPE_NAMES = ["probing", "rest-probing", "trie", "quant-trie", "array-trie", "quant-array-trie"]
 
